@@ -103,7 +103,11 @@ pub fn parse_tag(tag: &[u8]) -> RTag {
 fn gen_case(rng: &mut Rng) -> Case {
     let mut doc: Vec<u8> = vec![];
     let ctx = rng.below(5);
-    let label = if rng.chance(1, 4) { rng.pick(wl::ENCODING_LABELS) } else { "utf-8" };
+    let label = match rng.below(8) {
+        0 | 1 => rng.pick(wl::ENCODING_LABELS),
+        2 => rng.pick(&["shift_jis", "big5", "gbk"]),
+        _ => "utf-8",
+    };
     let enc = enc_of(label);
     let (open, close): (&str, &str) = match ctx {
         0 | 1 => ("<div>", "</div>"),
@@ -138,18 +142,45 @@ fn gen_case(rng: &mut Rng) -> Case {
         }
     }
     doc.extend(close.as_bytes());
+    // attribute names that really occur in the generated tags (for lookups / removals that hit)
+    let mut present: Vec<String> = vec![];
+    {
+        let mut i = 0;
+        while i < doc.len() {
+            if doc[i] == b'<' && doc.get(i + 1).is_some_and(|c| c.is_ascii_alphabetic()) {
+                if let Some(e) = super::c14::tag_end(&doc, i) {
+                    for (n, _) in parse_tag(&doc[i..e]).attrs {
+                        if let Ok(s) = String::from_utf8(n) {
+                            present.push(s);
+                        }
+                    }
+                    i = e;
+                    continue;
+                }
+            }
+            i += 1;
+        }
+    }
     let mut sc = Scenario::new(doc);
     sc.encoding = label.to_string();
     let mut ops = vec![];
+    let pick_name = |rng: &mut Rng, present: &Vec<String>| -> String {
+        if !present.is_empty() && rng.bool() {
+            let n = rng.pick(&present.iter().collect::<Vec<_>>()).clone();
+            if rng.bool() { n.to_ascii_uppercase() } else { n }
+        } else {
+            rng.pick(wl::ATTR_NAMES).to_string()
+        }
+    };
     for _ in 0..rng.small(3) {
-        let n = rng.pick(wl::ATTR_NAMES);
-        let n = if rng.bool() { n.to_ascii_uppercase() } else { n.to_string() };
+        let n = pick_name(rng, &present);
+        let n = if rng.bool() { n.to_ascii_uppercase() } else { n };
         ops.push(if rng.bool() { ElOp::GetAttr(n) } else { ElOp::HasAttr(n) });
     }
     for _ in 0..rng.small(3) {
         ops.push(match rng.below(4) {
             0 => ElOp::SetAttr(rng.pick(&["id", "NEW", "class", "data-x", "a", "é", "bad name", ""]).to_string(), rng.pick(wl::ATTR_VALUES).to_string()),
-            1 => ElOp::RemoveAttr(rng.pick(wl::ATTR_NAMES).to_string()),
+            1 => ElOp::RemoveAttr(pick_name(rng, &present)),
             2 => ElOp::SetTagName(rng.pick(&["x", "NewName", "b", "1x", "", "a b"]).to_string()),
             _ => ElOp::Snapshot,
         });
